@@ -89,7 +89,7 @@ class StmtMixin:
             spec = spec or {}
             s2 = st.copy()
             self.havoc_modifies(c, s2, env_pre)
-            env_post = Env(s2, pre, env_vals, ex=Exc(ecls))
+            env_post = Env(s2, pre, dict(env_vals, __final__=self.write_back_mutated(c, pos, kws, s2, node, env_vals)), ex=Exc(ecls))
             if spec.get("when") is not None:
                 w = self.spec.boolean(spec["when"], env_pre)
                 whens.append(w)
@@ -110,11 +110,30 @@ class StmtMixin:
             res = self.pure_result(c, env_vals, rt, pre)
         else:
             res = ty.fresh(rt, "ret_" + c.name.split(".")[-1].split(":")[-1])
-        env_post = Env(s1, pre, dict(env_vals, result=res))
+        env_post = Env(s1, pre, dict(env_vals, result=res, __final__=self.write_back_mutated(c, pos, kws, s1, node, env_vals)))
         for e in c.ensures:
             s1.assume(self.spec.boolean(e, env_post))
         out.append((s1, res))
         return out
+
+    def write_back_mutated(self, c, pos, kws, st, node, env_vals):
+        """A callee that changes a container argument in place (contract key `mutates`): the caller's location that held the argument
+        now holds an unknown value of the same type, which the callee's ensures describe through final(p)."""
+        fin = {}
+        if not c.mutates:
+            return fin
+        names = list(c.params.keys())
+        off = len(pos) - len(getattr(node, "args", []))      # 1 for a bound method (receiver first), 0 for a plain function
+        kwnodes = {k.arg: k.value for k in getattr(node, "keywords", [])}
+        for name in c.mutates:
+            idx = names.index(name)
+            argnode = node.args[idx - off] if 0 <= idx - off < len(node.args) else kwnodes.get(name)
+            if argnode is None or not isinstance(argnode, (ast.Name, ast.Attribute)):
+                raise Unsupported("argument for the in-place changed parameter %s of %s is not a variable or field" % (name, c.name))
+            new = ty.fresh(env_vals[name].t, "after_" + name)
+            self.store_loc(st, argnode, new)
+            fin[name] = new
+        return fin
 
     def pure_result(self, c, env_vals, rt, st):
         """Result of a pure callee: a function of its arguments (and, conservatively, nothing else is assumed
